@@ -88,6 +88,7 @@ type gen struct {
 	lit              int
 	labels           map[string]bool
 	copied           map[string]string // variable -> the variable it was copied from
+	consts           map[string]bool
 	deepMutAfterCopy bool
 }
 
@@ -225,21 +226,35 @@ func (g *gen) step() bool {
 	case 2, 3: // declare from a variable / element / property (copy)
 		if p, ok := pickPath("src", nil); ok {
 			n := g.name()
-			add(&zn.Let{Names: []string{n}, E: p.expr})
+			konst := g.pick(3, "const") == 0
+			add(&zn.Let{Names: []string{n}, E: p.expr, Const: konst})
 			g.copied[n] = p.root
 			g.labels["declare-from-path"] = true
+			if konst {
+				// 恒为 only forbids giving the NAME another value: the stored value is still a copy
+				g.consts[n] = true
+				g.labels["constant-declared-from-path"] = true
+			}
 		}
 	case 4: // multi-declaration
 		if p, ok := pickPath("msrc", nil); ok {
 			a, b := g.name(), g.name()
-			add(&zn.Let{Names: []string{a, b}, E: p.expr})
+			konst := g.pick(3, "mconst") == 0
+			add(&zn.Let{Names: []string{a, b}, E: p.expr, Const: konst})
 			g.copied[a], g.copied[b] = p.root, p.root
 			g.labels["multi-declare"] = true
+			if konst {
+				g.consts[a], g.consts[b] = true, true
+				g.labels["constant-declared-from-path"] = true
+			}
 		}
 	case 5: // assign variable from a path
 		if len(colls) > 0 {
 			if p, ok := pickPath("asrc", nil); ok {
 				t := colls[g.pick(len(colls), "atgt")]
+				if g.consts[t] {
+					break // a constant name cannot be given another value (C06)
+				}
 				add(set(v(t), p.expr))
 				g.copied[t] = p.root
 				g.labels["assign-variable"] = true
@@ -420,7 +435,7 @@ func (g *gen) step() bool {
 
 func TestCopySemantics(t *testing.T) {
 	rapid.Check(t, func(t *rapid.T) {
-		g := &gen{t: t, labels: map[string]bool{}, copied: map[string]string{}}
+		g := &gen{t: t, labels: map[string]bool{}, copied: map[string]string{}, consts: map[string]bool{}}
 		g.prog = &zn.Program{Body: []zn.Stmt{
 			&zn.ClassDef{Name: "盒", Props: []zn.Prop{
 				{Name: "数", Init: num(0)},
